@@ -3,6 +3,7 @@
 package props
 
 import (
+	"bufio"
 	"bytes"
 	"fmt"
 	"io"
@@ -242,6 +243,21 @@ func c10WinCert(c *hx.Ctx, in, payload []byte, class string) {
 		bad("encoding a decoded value does not reproduce the consumed bytes", map[string]any{"encoded": hx8(enc.Bytes())})
 		return
 	}
+	// a *bufio.Reader: the decoded body must survive the reader refilling its buffer
+	{
+		big := append(append([]byte{}, full...), fill(9000, 0x6e)...)
+		br := bufio.NewReaderSize(bytes.NewReader(big), 4096)
+		var wb signature.WINCertificate
+		if p := hx.Try(func() { wb, err = signature.ReadWinCertificate(br) }); p != nil || err != nil {
+			bad("decoding from a *bufio.Reader fails", map[string]any{"error": fmt.Sprint(err, p)})
+			return
+		}
+		rest, _ := io.ReadAll(br)
+		if len(rest) != len(payload)+9000 || !bytes.Equal(wb.Certificate, want.Body) {
+			bad("a WIN_CERTIFICATE decoded from a *bufio.Reader changes (or the stream position is wrong) once the caller reads on", map[string]any{"rest": len(rest)})
+			return
+		}
+	}
 	buf := bytes.NewBuffer(append([]byte{}, full...))
 	var w3 signature.WINCertificate
 	if p := hx.Try(func() { w3, err = signature.ReadWinCertificate(buf) }); p != nil || err != nil {
@@ -290,6 +306,20 @@ func c10Run(c *hx.Ctx, tier, unit string) {
 			}
 		}
 	case "wincert":
+		// bodies that look like what the entry usually carries: a DER SEQUENCE, followed by 0..8
+		// bytes (zero or not) that are still inside dwLength
+		for _, ty := range []uint16{0x0002, 0x0EF0, 0x0EF1} {
+			for pad := 0; pad <= 8; pad++ {
+				for _, pb := range []byte{0x00, 0x5c} {
+					if !c.Next() {
+						continue
+					}
+					body := append([]byte{0x30, 0x06, 0x02, 0x01, 0x01, 0x04, 0x01, 0xaa}, bytes.Repeat([]byte{pb}, pad)...)
+					w := refauth.WinCert{Length: uint32(8 + len(body)), Revision: 0x0200, Type: ty, Body: body}
+					c10WinCert(c, w.Bytes(), fill(16, 0x31), "DER body with trailing bytes inside dwLength")
+				}
+			}
+		}
 		for _, ty := range []uint16{0x0002, 0x0EF0, 0x0EF1} {
 			for _, n := range c10Lens(tier) {
 				for _, p := range payloads {
